@@ -323,6 +323,10 @@ class FormulaMaterializer(metaclass=FormulaMaterializerMeta):
             overrides: dict[str, Any] = {
                 "materializer": self.REGISTER_NAME,
                 "materializer_params": self.params,
+                # State is populated during materialization; never write into
+                # the dictionaries of the spec we were handed.
+                "transform_state": dict(model_spec.transform_state),
+                "encoder_state": dict(model_spec.encoder_state),
             }
 
             if model_spec.output is None:
